@@ -34,6 +34,7 @@ type Faulty struct {
 
 	CasDelay time.Duration // every CasByVersion takes this long to reach the storage (a slow, but answering, storage)
 	CasErr   error         // what an injected CasByVersion failure returns (nil: ErrInjected)
+	CreateErr error        // what an injected Create failure returns (nil: ErrInjected)
 
 	holdArmed bool
 	holdAfter bool
@@ -156,14 +157,18 @@ func (f *Faulty) Create(ctx context.Context, r kvs.Record) (string, error) {
 		close(held)
 		<-resume
 	}
+	cerr := ErrInjected
+	if f.CreateErr != nil {
+		cerr = f.CreateErr
+	}
 	if fc == 1 {
-		f.log(Event{Op: "create", Key: r.Key, Err: ErrInjected})
-		return "", ErrInjected
+		f.log(Event{Op: "create", Key: r.Key, Err: cerr})
+		return "", cerr
 	}
 	if fc == 2 {
 		f.Inner.Create(ctx, r)
-		f.log(Event{Op: "create", Key: r.Key, Applied: true, Err: ErrInjected})
-		return "", ErrInjected
+		f.log(Event{Op: "create", Key: r.Key, Applied: true, Err: cerr})
+		return "", cerr
 	}
 	v, err := f.Inner.Create(ctx, r)
 	f.log(Event{Op: "create", Key: r.Key, Applied: true, Err: err})
